@@ -86,6 +86,16 @@ func dkgThresholdSign(c *rig.Cluster, account string, composite []byte, t int, m
 			continue
 		}
 		sigs[id] = sig
+		// The same request addressed by the account's public key (this participant's share key, as listed) is the
+		// same account: same verdict and, BLS signing being deterministic, the same signature.
+		if v, err := dkgView(inst, account); err == nil && len(v.SharePub) == 48 {
+			kres, ksig := inst.Stack.Signer.SignGeneric(context.Background(), rig.Client1(), "", v.SharePub, data)
+			if kres != core.ResultSucceeded {
+				problems = append(problems, fmt.Sprintf("participant %d cannot sign with the new account addressed by its public key without restart: %s", id, kres))
+			} else if string(ksig) != string(sig) {
+				problems = append(problems, fmt.Sprintf("participant %d signs with a different key when the new account is addressed by its public key", id))
+			}
+		}
 		// Listing must show it too.
 		lres, accts := inst.Stack.Lister.ListAccounts(context.Background(), rig.Client1(), []string{"D"})
 		found := false
